@@ -47,14 +47,38 @@ def run(ck, ctx):
         ctors = [n for n in walk([res]) if is_ext_call(n, "scipy.interpolate.RegularGridInterpolator")]
         ck.floor("R05.1", len(ctors), 1, "RegularGridInterpolator constructions")
         data_nodes = []
+        table_floor = []       # (facet, value of the interpolated table where the raw entry is <= 0, node)
         for c in ctors:
             pos, kws = call_args(c)
             vals = pos[1] if len(pos) > 1 else kws.get("values")
             okl = vals is not None and is_ext_call(vals, "numpy.log10")
-            ck.ob("R05.1", "the interpolated table is log10(exit probability)", okl, c, func,
-                  g.show(vals, 2) if vals is not None else "?")
             if okl:
                 data_nodes.append(vals.args[1])
+            # the interpolated table as a function of the raw table entry p, cell by cell:
+            #   p > 0  ->  log10(p)        p <= 0  ->  log10(floor)
+            # (in-place clamp followed by log10, or a log10 written over a pre-filled array: same function)
+            if vals is not None:
+                from ..facets.poly import PolyFacet
+                raws = {x.id: x for x in walk([vals]) if x.op in ("State", "Attr") and x.attr == "data"}
+                if len(raws) == 1:
+                    praw = next(iter(raws.values()))
+                    pk = Pred(I)
+                    fpos = pk.formula(I.mk("Compare", (I.const(0), praw), "Lt"))
+                    key = pk.atoms_of(fpos)[0]
+                    for pol in (True, False):
+                        Pc = PolyFacet(I, opaque_ids={praw.id}, gather_transparent=True)
+                        Pc.cell = (pk, {key: pol})
+                        v_ = Pc.of(vals)
+                        if pol:
+                            ck.ob("R05.1", "positive table entries are interpolated as log10(entry)",
+                                  Pc.equal(v_, Pc.ref("log10(p)", {"p": Pc.of(praw)})), vals, func, Pc.show(v_)[:160])
+                        else:
+                            table_floor.append((Pc, v_, vals))
+                else:
+                    ck.ob("R05.1", "the interpolated table is log10(exit probability)", okl, c, func,
+                          g.show(vals, 2))
+            else:
+                ck.ob("R05.1", "the interpolated table is log10(exit probability)", False, c, func, "?")
             # the interpolator validates BOTH coordinates: switching the check off for the angle switches it off
             # for the energy as well
             be = kws.get("bounds_error", pos[3] if len(pos) > 3 else None)
@@ -134,7 +158,7 @@ def run(ck, ctx):
         ck.ob("R05.6", "no argument array is modified", not inputs_w, inputs_w[0][0].node if inputs_w else res,
               func, "; ".join(e.where() for e, _ in inputs_w[:4]))
         state_w = [(e, h) for e, h in ws if (e, h) not in inputs_w]
-        ck.ob("R05.6", "exactly one in-place write to instance state (the clamp)", len(state_w) == 1,
+        ck.ob("R05.6", "at most one in-place write to instance state (the idempotent clamp)", len(state_w) <= 1,
               state_w[0][0].node if state_w else res, func,
               f"{len(state_w)} write(s): " + "; ".join(f"{e.data.get('how')} at {e.where()}" for e, _ in state_w[:5]),
               construct=f"{func}: in-place writes to instance state")
@@ -171,6 +195,15 @@ def run(ck, ctx):
                 ck.ob("R05.2", "high-angle floor and in-place floor are the same constant (float32 eps)",
                       g.same(fl, clamp_k) and is_f32_eps(fl), sc, func,
                       f"{g.show(fl, 3)} vs {g.show(clamp_k, 3)}")
-        else:
-            ck.floor("R05.2", 0, 1, "floor constants (clamp and high-angle store)")
+        n_fl = 0
+        for Pc, v_, node in table_floor:
+            for sc, fl in floors:
+                n_fl += 1
+                ck.ob("R05.2", "non-positive table entries are interpolated as log10(floor), the floor being the same "
+                      "float32-eps constant as for angles above the table", is_f32_eps(fl) and
+                      Pc.equal(v_, Pc.ref("log10(k)", {"k": Pc.of(fl)})), node, func,
+                      f"{Pc.show(v_)[:120]} vs log10({g.show(fl, 2)})",
+                      construct=f"{func}: value interpolated for non-positive table entries")
+        if not (clamp_k is not None and floors) and not n_fl:
+            ck.floor("R05.2", 0, 1, "floor constants (table floor and high-angle store)")
     ck.guard(pexit, "R05")
